@@ -573,10 +573,11 @@ pub fn cert_spec(o: CertGenOpts) -> BoxedStrategy<CertSpec> {
 	} else {
 		(time_valid(), time_valid()).boxed()
 	};
+	let auto_serial = if cfg!(feature = "crypto") { 2 } else { 0 };
 	let serial = if o.conformant {
-		prop_oneof![2 => Just(None), 3 => conformant_serial().prop_map(Some)].boxed()
+		prop_oneof![auto_serial => Just(None), 3 => conformant_serial().prop_map(Some)].boxed()
 	} else {
-		prop_oneof![2 => Just(None), 3 => int_bytes(24).prop_map(Some)].boxed()
+		prop_oneof![auto_serial => Just(None), 3 => int_bytes(24).prop_map(Some)].boxed()
 	};
 	let mask = prop_oneof![
 		1 => Just(0u8),
@@ -708,6 +709,7 @@ pub fn csr_spec(moderate: bool, standard_ekus: bool, with_custom: bool) -> Boxed
 		.prop_map(move |(dn, sans, ku, ekus, custom, mask, kid)| {
 			let keep = |b: u8| mask & (1 << b) != 0;
 			let mut s = CertSpec::minimal();
+			s.serial = None; // a CSR cannot carry one
 			s.dn = dn;
 			s.kid = kid;
 			s.sans = if keep(0) { sans } else { vec![] };
